@@ -5,7 +5,7 @@
 // caller-supplied event channel; jsonTextValid is the assumed contract of encoding/json (spec/c04.smt2).
 package validator
 
-//@ prelude c04 c18 c03 c09
+//@ prelude c04 c18 c03 c09 c14
 
 //@ func dispatchEvent(event e.Event, eventChan *chan e.Event)
 //@   requires [C11:protocol] eventChan != nil ==> (chanClosed == 0 && ite(evIsStart(event.EventType), !evOpen && evStage(event.EventType) == evNext, evOpen && evCur == evStage(event.EventType)))
@@ -155,3 +155,65 @@ package validator
 
 //@ func BuildReport(resultPtr *rego.ResultSet, validationConfig c.ValidationConfiguration, reportConfig c.ReportConfiguration) (string, error)
 //@   verify [C03]
+
+// ---- lexical index (C14) ----------------------------------------------------------------------------------------------
+// SOURCEMAP, LEXICAL, ELEMENT, VALUE, BUSI, ROOTLOCATION, ADDLOCATIONS, LOCATION, ELEMENTS are the vocabulary IRIs (spec/c14.smt2).
+
+//@ func (locIndex *LocationIndex) Location(id string) string
+//@   requires locIndex != nil
+//@   ensures [C14:mapped-or-default] (has(deref(locIndex).IdToLocation, id) ==> result == deref(locIndex).IdToLocation[id]) && (!has(deref(locIndex).IdToLocation, id) ==> result == deref(locIndex).DefaultLocation)
+
+//@ func addLexicalEntryFrom(node *types.ObjectMap, nodeIndex *types.ObjectMap, lexicalIndex *types.ObjectMap, locIndex *LocationIndex)
+//@   requires node != nil && nodeIndex != nil && lexicalIndex != nil && locIndex != nil
+//@   requires [C14:separate-indexes] deref(lexicalIndex) != deref(nodeIndex) && deref(lexicalIndex) != nil && (has(deref(nodeIndex), deref(node)["@id"].(string)) ==> deref(lexicalIndex) != deref(nodeIndex)[deref(node)["@id"].(string)].(map[string]any))
+//@   ensures [C14:entry-for-node] let id = old(deref(nodeIndex)[deref(node)["@id"].(string)].(map[string]any)[ELEMENT].(string)) :: (old(has(deref(nodeIndex), id)) ==> (has(deref(lexicalIndex), id) && deref(lexicalIndex)[id].(map[string]any)["range"] == old(deref(nodeIndex)[deref(node)["@id"].(string)].(map[string]any)[VALUE]) && deref(lexicalIndex)[id].(map[string]any)["uri"] == box(string, ite(has(deref(locIndex).IdToLocation, id), deref(locIndex).IdToLocation[id], deref(locIndex).DefaultLocation))))
+//@   ensures [C14:no-entry-for-non-node] let id = old(deref(nodeIndex)[deref(node)["@id"].(string)].(map[string]any)[ELEMENT].(string)) :: (!old(has(deref(nodeIndex), id)) ==> unchanged(deref(lexicalIndex)))
+//@   ensures [C14:other-entries-kept] let id = old(deref(nodeIndex)[deref(node)["@id"].(string)].(map[string]any)[ELEMENT].(string)) :: (forall k string :: k != id ==> (has(deref(lexicalIndex), k) == old(has(deref(lexicalIndex), k)) && deref(lexicalIndex)[k] == old(deref(lexicalIndex)[k])))
+//@   ensures [C14:frame] forall m map[string]any :: (ref(m) <= old(alloc) && m != deref(lexicalIndex)) ==> unchanged(m)
+
+//@ func addElementsOfLoc(node *types.ObjectMap, nodeIndex *types.ObjectMap, idToLocation *types.StringMap)
+//@   requires node != nil && nodeIndex != nil && idToLocation != nil && deref(idToLocation) != nil
+//@   ensures [C14:single-element] let L = old(deref(nodeIndex)[deref(node)["@id"].(string)].(map[string]any)) :: (is(old(L[ELEMENTS]), map[string]any) ==> deref(idToLocation)[old(L[ELEMENTS].(map[string]any)["@id"].(string))] == old(L[LOCATION].(string)) && has(deref(idToLocation), old(L[ELEMENTS].(map[string]any)["@id"].(string))))
+//@   ensures [C14:every-listed-element] let L = old(deref(nodeIndex)[deref(node)["@id"].(string)].(map[string]any)) :: (is(old(L[ELEMENTS]), []any) ==> (forall j int :: (0 <= j && j < len(old(L[ELEMENTS].([]any))) && is(old(L[ELEMENTS].([]any))[j], map[string]any)) ==> (has(deref(idToLocation), old(L[ELEMENTS].([]any)[j].(map[string]any)["@id"].(string))) && deref(idToLocation)[old(L[ELEMENTS].([]any)[j].(map[string]any)["@id"].(string))] == old(L[LOCATION].(string)))))
+//@   ensures [C14:entries-only-added] forall k string :: old(has(deref(idToLocation), k)) ==> has(deref(idToLocation), k)
+//@   ensures [C14:frame] forall m map[string]any :: unchanged(m)
+//@   loop 1 /* for _, e := range v */
+//@     invariant [C14] forall m map[string]any :: unchanged(m)
+//@     invariant [C14] forall k string :: old(has(deref(idToLocation), k)) ==> has(deref(idToLocation), k)
+//@     invariant [C14] forall j int :: (0 <= j && j < #i && is(v[j], map[string]any)) ==> (has(deref(idToLocation), old(v[j].(map[string]any)["@id"].(string))) && deref(idToLocation)[old(v[j].(map[string]any)["@id"].(string))] == locationValue)
+
+//@ func createLocationIndex(nodeIndex *types.ObjectMap, classIndex *map[string][]string) *LocationIndex
+//@   requires nodeIndex != nil && classIndex != nil
+//@   ensures [C14:fresh-index] result != nil && ref(result) > old(alloc) && deref(result).IdToLocation != nil
+//@   ensures [C14:no-source-information] len(old(deref(classIndex)[BUSI])) == 0 ==> (deref(result).DefaultLocation == "" && (forall k string :: !has(deref(result).IdToLocation, k)))
+//@   ensures [C14:root-location] len(old(deref(classIndex)[BUSI])) > 0 ==> deref(result).DefaultLocation == old(deref(nodeIndex)[deref(classIndex)[BUSI][0]].(map[string]any)[ROOTLOCATION].(string))
+//@   ensures [C14:single-location-single-element] let S = old(deref(nodeIndex)[deref(classIndex)[BUSI][0]].(map[string]any)) :: ((len(old(deref(classIndex)[BUSI])) > 0 && is(old(S[ADDLOCATIONS]), map[string]any)) ==> (let L = old(deref(nodeIndex)[S[ADDLOCATIONS].(map[string]any)["@id"].(string)].(map[string]any)) :: (is(old(L[ELEMENTS]), map[string]any) ==> (has(deref(result).IdToLocation, old(L[ELEMENTS].(map[string]any)["@id"].(string))) && deref(result).IdToLocation[old(L[ELEMENTS].(map[string]any)["@id"].(string))] == old(L[LOCATION].(string))))))
+//@   ensures [C14:every-location-covered] let S = old(deref(nodeIndex)[deref(classIndex)[BUSI][0]].(map[string]any)) :: ((len(old(deref(classIndex)[BUSI])) > 0 && is(old(S[ADDLOCATIONS]), []any)) ==> (forall j int :: (0 <= j && j < len(old(S[ADDLOCATIONS].([]any))) && is(old(S[ADDLOCATIONS].([]any))[j], map[string]any)) ==> (let L = old(deref(nodeIndex)[S[ADDLOCATIONS].([]any)[j].(map[string]any)["@id"].(string)].(map[string]any)) :: (is(old(L[ELEMENTS]), map[string]any) ==> has(deref(result).IdToLocation, old(L[ELEMENTS].(map[string]any)["@id"].(string)))))))
+//@   ensures [C14:frame] forall m map[string]any :: unchanged(m)
+//@   loop 1 /* for _, e := range v */
+//@     invariant [C14] forall m map[string]any :: unchanged(m)
+//@     invariant [C14] forall j int :: (0 <= j && j < #i && is(v[j], map[string]any)) ==> (let L = old(deref(nodeIndex)[v[j].(map[string]any)["@id"].(string)].(map[string]any)) :: (is(old(L[ELEMENTS]), map[string]any) ==> has(idToLocation, old(L[ELEMENTS].(map[string]any)["@id"].(string)))))
+
+//@ func Index(json any) any
+//@   requires-assumed [C14:A-HEAP] forall k int :: (0 <= k && k < len(json.(map[string]any)["@graph"].([]any))) ==> (is(json.(map[string]any)["@graph"].([]any)[k], map[string]any) ==> ref(json.(map[string]any)["@graph"].([]any)[k].(map[string]any)) <= alloc)
+//@   ensures [C14:three-indexes] is(result, map[string]any) && is(result.(map[string]any)["@ids"], map[string]any) && is(result.(map[string]any)["@types"], map[string][]string) && is(result.(map[string]any)["@lexical"], map[string]any)
+//@   ensures [C12:every-node-indexed] forall k int :: (0 <= k && k < len(old(json.(map[string]any)["@graph"].([]any)))) ==> has(result.(map[string]any)["@ids"].(map[string]any), old(json.(map[string]any)["@graph"].([]any)[k].(map[string]any)["@id"].(string)))
+//@   ensures [C14:no-source-maps-no-locations] len(result.(map[string]any)["@types"].(map[string][]string)[SOURCEMAP]) == 0 ==> (forall k string :: !has(result.(map[string]any)["@lexical"].(map[string]any), k))
+//@   ensures [C14:input-untouched] forall m map[string]any :: ref(m) <= old(alloc) ==> unchanged(m)
+//@   loop 1 /* for _, nn := range nodes */
+//@     invariant [C14] forall m map[string]any :: ref(m) <= old(alloc) ==> unchanged(m)
+//@     invariant [C14] forall j int :: (0 <= j && j < #i) ==> has(nodeIndex, old(nodes[j].(map[string]any)["@id"].(string)))
+//@     invariant [C14] forall k string :: has(nodeIndex, k) ==> (is(nodeIndex[k], map[string]any) && ref(nodeIndex[k].(map[string]any)) <= old(alloc))
+//@   loop 2 /* for _, cc := range classes.([]any) */
+//@     invariant [C14] forall m map[string]any :: ref(m) <= old(alloc) ==> unchanged(m)
+//@     invariant [C14] forall j int :: (0 <= j && j <= #i@1) ==> has(nodeIndex, old(nodes[j].(map[string]any)["@id"].(string)))
+//@     invariant [C14] forall k string :: has(nodeIndex, k) ==> (is(nodeIndex[k], map[string]any) && ref(nodeIndex[k].(map[string]any)) <= old(alloc))
+//@   loop 3 /* for _, sourceMapId := range classIndex["http://a.ml/vocabularies/document-source-maps#SourceMap"] */
+//@     invariant [C14] forall m map[string]any :: ref(m) <= old(alloc) ==> unchanged(m)
+//@     invariant [C14] forall j int :: (0 <= j && j < len(nodes)) ==> has(nodeIndex, old(nodes[j].(map[string]any)["@id"].(string)))
+//@     invariant [C14] forall k string :: has(nodeIndex, k) ==> (is(nodeIndex[k], map[string]any) && ref(nodeIndex[k].(map[string]any)) <= old(alloc))
+//@     invariant [C14] #i == 0 ==> (forall k string :: !has(lexicalIndex, k))
+//@   loop 4 /* for _, e := range v */
+//@     invariant [C14] forall m map[string]any :: ref(m) <= old(alloc) ==> unchanged(m)
+//@     invariant [C14] forall j int :: (0 <= j && j < len(nodes)) ==> has(nodeIndex, old(nodes[j].(map[string]any)["@id"].(string)))
+//@     invariant [C14] forall k string :: has(nodeIndex, k) ==> (is(nodeIndex[k], map[string]any) && ref(nodeIndex[k].(map[string]any)) <= old(alloc))
